@@ -111,7 +111,7 @@ pub struct FdInfo {
 pub struct DiskOpRec { pub instance: usize, pub op: Op, pub class: FileClass, pub bytes: usize, pub ok: bool }
 
 #[derive(Clone, Copy, Debug, Default)]
-pub struct RecvRec { pub upto: u64, pub mono: u64 }
+pub struct RecvRec { pub upto: u64, pub mono: u64, pub seq: u64 }
 
 pub struct ConnLog {
     /// cumulative bytes the server has consumed on this connection, with the virtual time of each recv
@@ -157,6 +157,8 @@ pub struct World {
     pub log_text: bool,
     pub switches: u64,
     pub sched_hash: u64,
+    /// global sequence number of transport events (orders the server's reads across connections)
+    pub evseq: u64,
 }
 
 static mut WORLD: Option<World> = None;
@@ -206,7 +208,7 @@ pub fn init(entropy_seed: u64) {
             n_accept: 0, n_recv: 0, n_send: 0, n_disk: 0, site_hits: [0; N_SITES],
             faults_fired: Vec::new(), panics: Vec::new(), proc_exits: Vec::new(), forbidden_calls: Vec::new(),
             max_alloc: 0, alloc_limit: 1 << 30,
-            hash: 0xcbf29ce484222325, log: Vec::new(), log_text: false, switches: 0, sched_hash: 0xcbf29ce484222325,
+            hash: 0xcbf29ce484222325, log: Vec::new(), log_text: false, switches: 0, sched_hash: 0xcbf29ce484222325, evseq: 0,
         });
     }
     ACTIVE.store(true, Ordering::SeqCst);
